@@ -42,16 +42,21 @@ def recheck(d):
 
 def main():
     rows = []
-    for d in sorted(glob.glob(os.path.join(VERIF, 'seeded', 'C*-*'))):
-        if not os.path.isdir(d):
-            continue
+    dirs = [d for d in sorted(glob.glob(os.path.join(VERIF, 'seeded', 'C*-*'))) if os.path.isdir(d)]
+    rechecked = {}
+    if '--recheck' in sys.argv:
+        from concurrent.futures import ThreadPoolExecutor
+        with ThreadPoolExecutor(8) as ex:
+            for d, r in zip(dirs, ex.map(recheck, dirs)):
+                rechecked[d] = r
+    for d in dirs:
         name = os.path.basename(d)
         ev = json.load(open(os.path.join(d, 'eval.json')))
         what, needs = NEEDS.get(name, ['', ''])
         caught, broken = ev['caught_by'], ev['analysis_broken']
         note = None
         if '--recheck' in sys.argv:
-            c2, b2, note = recheck(d)
+            c2, b2, note = rechecked[d]
             if c2 is not None:
                 caught, broken = c2, b2
         meta = {'property': ev['property'], 'breaks': what, 'needs_to_manifest': needs,
